@@ -11,6 +11,14 @@ def run(tier, seed):
     quick = tier == "quick"
     vlib.tlc_check(chk, "SyncLifo: tagged-pointer LIFO protocol, exhaustive (ABA-freedom, conservation)", os.path.join(VERIF, "spec", "data", "SyncLifo.tla"),
                    os.path.join(VERIF, "spec", "data", "SyncLifoMC.cfg"), timeout=900)
+    d = os.path.join(VERIF, "spec", "data")
+    vlib.tlc_check(chk, "MemPoolLocal: local bucket arrays over the global pool of full buckets as coded (alloc / free / bucket hand-over), 2 local pools, exhaustive",
+                   os.path.join(d, "MemPoolLocal.tla"), os.path.join(d, "MemPoolLocalMC.cfg"), timeout=900)
+    vlib.tlc_check(chk, "MemPoolLocal: one local pool with page growth, exhaustive", os.path.join(d, "MemPoolLocal.tla"), os.path.join(d, "MemPoolLocalMC1.cfg"), timeout=900)
+    r = vlib.tlc_check(chk, "MemPoolLocal with a wrong bucket shift (must be violated)", os.path.join(d, "MemPoolLocal.tla"), os.path.join(d, "MemPoolLocalBadShift.cfg"),
+                       timeout=300, expect="violation")
+    if not r["violated"]:
+        raise vlib.Broken("the bad-shift variant of MemPoolLocal is not rejected: the invariants are vacuous")
     optsets = [("nes=%d" % n, "mem=%d" % m) for m in (0, 1, 2, 3) for n in (0, 1, 2)]
     # tasklet descriptors freed by an external thread, and live ones next to memory-pool stacks (tiny buckets)
     optsets += [("nes=%d" % n, "mem=%d" % m, "desc=1") for m in (2, 3) for n in (0, 1, 2)]
